@@ -86,15 +86,27 @@ def order_key(av, floats=False):
 
 
 class Opts:
-    def __init__(self, floats=False):
+    """deviation switches: with all of them off this is the specification; a known finding is
+    recognised by turning its switch on and seeing the implementation's outcome become allowed"""
+    def __init__(self, floats=False, root_scalar_err=False, path_operand_err=False, contains_subset=False):
         self.floats = floats
+        self.root_scalar_err = root_scalar_err
+        self.path_operand_err = path_operand_err
+        self.contains_subset = contains_subset
 
 
-def operand_value(item, o):
-    """('val', av) | ('missing',) | ('size', n | None)"""
+OPTS = Opts()
+
+
+def operand_value(item, o, opts=None):
+    """('val', av, is_constant) | ('missing',) | ('size', n | None) | ('error',)"""
     k = o["k"]
     if k == "val":
         return ("val", o["v"], True)  # constant
+    if opts is not None and opts.root_scalar_err and o.get("steps"):
+        root = item_get(item, o["root"])
+        if root is not MISSING and tag(root) not in ("L", "M"):
+            return ("error",)
     v = resolve(item, o)
     if k == "size":
         if v is MISSING:
@@ -111,6 +123,8 @@ def operand_value(item, o):
 
 
 def cmp_outcomes(op, l, r, opts):
+    if l[0] == "error" or r[0] == "error":
+        return {"E"}
     # size() yields a number
     def as_val(x):
         if x[0] == "size":
@@ -129,7 +143,9 @@ def cmp_outcomes(op, l, r, opts):
         eq = canon(l[1], opts.floats) == canon(r[1], opts.floats)
         return {"T"} if (eq == (op == "=")) else {"F"}
     # ordering
-    const_bad = any((not x[0] == "missing") and x[2] and tag(x[1]) not in ORDERABLE for x in (l, r))
+    # an operand of a type that has no order: DynamoDB answers false for an attribute of the wrong
+    # type and rejects a constant of the wrong type; the property does not separate the two
+    const_bad = any((not x[0] == "missing") and tag(x[1]) not in ORDERABLE for x in (l, r))
     if lm or rm:
         return {"F", "E"} if const_bad else {"F"}
     tl, tr = tag(l[1]), tag(r[1])
@@ -154,17 +170,23 @@ def evalc(tree, item, opts=None):
     opts = opts or Opts()
     k = tree["k"]
     if k == "cmp":
-        return cmp_outcomes(tree["op"], operand_value(item, tree["l"]), operand_value(item, tree["r"]), opts)
+        return cmp_outcomes(tree["op"], operand_value(item, tree["l"], opts), operand_value(item, tree["r"], opts), opts)
     if k == "between":
-        x, lo, hi = (operand_value(item, tree[n]) for n in ("l", "r", "x"))
+        if opts.path_operand_err and any(tree[n]["k"] != "val" and tree[n].get("steps") for n in ("r", "x")):
+            return {"E"}
+        x, lo, hi = (operand_value(item, tree[n], opts) for n in ("l", "r", "x"))
         return both(cmp_outcomes("<=", lo, x, opts), cmp_outcomes("<=", x, hi, opts), lambda p, q: p and q)
     if k == "in":
-        l = operand_value(item, tree["l"])
+        if opts.path_operand_err and any(o["k"] != "val" and o.get("steps") for o in tree["ins"]):
+            return {"E"}
+        l = operand_value(item, tree["l"], opts)
+        if l[0] == "error" or any(operand_value(item, o, opts)[0] == "error" for o in tree["ins"]):
+            return {"E"}
         if l[0] == "missing":
             return {"F"}
         hit = False
         for o in tree["ins"]:
-            r = operand_value(item, o)
+            r = operand_value(item, o, opts)
             if r[0] == "val" and l[0] == "val" and canon(l[1], opts.floats) == canon(r[1], opts.floats):
                 hit = True
         return {"T"} if hit else {"F"}
@@ -177,12 +199,14 @@ def evalc(tree, item, opts=None):
         return both(evalc(tree["a"], item, opts), evalc(tree["b"], item, opts), lambda p, q: p or q)
     if k == "fn":
         fn, args = tree["fn"], tree["args"]
-        p = operand_value(item, args[0])
+        p = operand_value(item, args[0], opts)
+        if p[0] == "error" or (len(args) > 1 and operand_value(item, args[1], opts)[0] == "error"):
+            return {"E"}
         if fn == "attribute_exists":
             return {"T"} if p[0] == "val" else {"F"}
         if fn == "attribute_not_exists":
             return {"F"} if p[0] == "val" else {"T"}
-        x = operand_value(item, args[1])
+        x = operand_value(item, args[1], opts)
         if fn == "attribute_type":
             if x[0] != "val" or tag(x[1]) != "S" or hx(x[1]["S"]).decode("latin1") not in ("S", "N", "B", "BOOL", "NULL", "L", "M", "SS", "NS", "BS"):
                 return {"E"}
@@ -203,6 +227,9 @@ def evalc(tree, item, opts=None):
             tp, tx = tag(p[1]), tag(x[1])
             if tp in ("S", "B") and tx == tp:
                 return {"T"} if hx(x[1][tx]) in hx(p[1][tp]) else {"F"}
+            if opts.contains_subset and tp in ("SS", "NS", "BS") and tx == tp:
+                members = canon(p[1], opts.floats)[1]
+                return {"T"} if all(e in members for e in canon(x[1], opts.floats)[1]) else {"F"}
             if tp in ("SS", "NS", "BS") and tx == tp[0]:
                 members = canon(p[1], opts.floats)[1]
                 e = canon(x[1], opts.floats)[1]
@@ -350,6 +377,10 @@ def remove_in(v, targets):
     for st in targets:
         key = ("i", st[0]["idx"]) if "idx" in st[0] else ("k", st[0]["key"])
         heads.setdefault(key, []).append(st[1:])
+    if (t == "L" and any(k[0] == "k" for k in heads)) or (t == "M" and any(k[0] == "i" for k in heads)):
+        raise Reject("accessor of the wrong kind in a REMOVE path")
+    if t not in ("L", "M"):
+        raise Reject("REMOVE path into a scalar")
     if t == "L":
         out = []
         for i, e in enumerate(v["L"]):
@@ -402,7 +433,8 @@ def eval_uval(v, item):
         return {"N": numtext(q).encode().hex()}
     if k == "if_not_exists":
         r = resolve(item, v["p"])
-        return r if r is not MISSING else eval_uval(v["a"], item)
+        dflt = eval_uval(v["a"], item)   # an operand that cannot be evaluated rejects the update either way
+        return r if r is not MISSING else dflt
     if k == "list_append":
         a, b = eval_uval(v["a"], item), eval_uval(v["b"], item)
         if tag(a) != "L" or tag(b) != "L":
